@@ -180,6 +180,27 @@ func ParseCSV(b []byte, delim rune) (cols []string, rows [][]string, err error) 
 	return all[0], all[1:], nil
 }
 
+// Normalize returns the table a CSV reader sees, taken to a fixed point: encoding/csv drops a CR
+// before a LF inside a quoted cell, so "\r\r\n" needs two passes before writing and reading agree.
+func Normalize(t *Table) *Table {
+	for i := 0; i < 8; i++ {
+		cols, rows, err := ParseCSV(ToCSV(t, 0), 0)
+		if err != nil {
+			return t
+		}
+		n := &Table{Cols: cols, Rows: rows}
+		same := len(n.Rows) == len(t.Rows) && strings.Join(n.Cols, "\x00") == strings.Join(t.Cols, "\x00")
+		for j := 0; same && j < len(rows); j++ {
+			same = strings.Join(rows[j], "\x00") == strings.Join(t.Rows[j], "\x00")
+		}
+		t = n
+		if same {
+			break
+		}
+	}
+	return t
+}
+
 func keyString(row []string, pk []int) string {
 	var sb strings.Builder
 	for _, i := range pk {
